@@ -29,7 +29,9 @@ import (
 )
 
 var (
-	vsPayloads = []string{"aa", "bb", "cc", "aab", "x5y", "dd", "zz", "aabb", ""}
+	vsPayloads = []string{"aa", "bb", "cc", "aab", "x5y", "dd", "zz", "aabb", "", "x7y"}
+	// datagrams of a fat flow: its stream does not fit into the pipe to a converter process
+	vsFatPayloads = []string{"x7y" + strings.Repeat("k", 1397), "aab" + strings.Repeat("k", 1397), strings.Repeat("k", 1398) + "bb"}
 	vsTagNames = []string{"tag/a", "tag/b", "tag/c", "tag/d", "service/s", "mark/m"}
 	vsPlain    = []string{
 		"cport:1000", "cport:1001:1003", "sport:80", "sport:443", "cbytes:4:", "sbytes:1:", "bytes:6:", "chost:10.0.0.1", "shost:10.0.0.2/31",
@@ -148,6 +150,24 @@ func vsGenTraffic(rt *rapid.T) *veTraffic {
 		}
 		seen[fl] = true
 		tr.Packets = append(tr.Packets, vePacket{Flow: fl, Dir: dir, Off: off, Payload: rapid.SampledFrom(vsPayloads).Draw(rt, "payload")})
+	}
+	// now and then one flow is fat: more data than the pipe to a converter process holds (64 KiB), so the service
+	// is still sending when the converter answers, misbehaves or dies
+	if !many && rapid.IntRange(0, 15).Draw(rt, "fatflow") == 0 {
+		fl := rapid.IntRange(0, nf-1).Draw(rt, "fat")
+		body := rapid.SampledFrom(vsFatPayloads).Draw(rt, "fatpayload")
+		first := rapid.SampledFrom([]string{body, body, "aa"}).Draw(rt, "fatfirst")
+		n := rapid.IntRange(50, 70).Draw(rt, "fatpackets")
+		for i := 0; i < n; i++ {
+			off += time.Millisecond
+			pl := body
+			if i == 0 {
+				pl = first
+			}
+			tr.Packets = append(tr.Packets, vePacket{Flow: fl, Dir: 0, Off: off, Payload: pl})
+		}
+		tr.Fat = true
+		np = len(tr.Packets)
 	}
 	nc := rapid.IntRange(2, 5).Draw(rt, "captures")
 	if nc > np {
@@ -377,7 +397,10 @@ func (r *vsRun) stepImport() {
 		r.brokenFiles++
 		bn := fmt.Sprintf("broken%02d.pcap", r.brokenFiles)
 		content := rapid.SampledFrom([][]byte{{}, []byte("this is not a capture file\n"), {0xd4, 0xc3, 0xb2, 0xa1, 2, 0, 4, 0, 0, 0},
-			{0xd4, 0xc3, 0xb2, 0xa1, 2, 0, 4, 0, 0, 0, 0, 0, 0, 0, 0, 0, 0, 0, 1, 0, 228, 0, 0, 0, 1, 2, 3}}).Draw(rt, "brokencontent")
+			{0xd4, 0xc3, 0xb2, 0xa1, 2, 0, 4, 0, 0, 0, 0, 0, 0, 0, 0, 0, 0, 0, 1, 0, 228, 0, 0, 0, 1, 2, 3},
+			// a well-formed capture without any packet (rotation during a quiet period)
+			{0xd4, 0xc3, 0xb2, 0xa1, 2, 0, 4, 0, 0, 0, 0, 0, 0, 0, 0, 0, 0, 0, 1, 0, 228, 0, 0, 0},
+			{0xd4, 0xc3, 0xb2, 0xa1, 2, 0, 4, 0, 0, 0, 0, 0, 0, 0, 0, 0, 0, 0, 1, 0, 228, 0, 0, 0}}).Draw(rt, "brokencontent")
 		if err := os.WriteFile(filepath.Join(r.e.dirs.pcap, bn), content, 0o644); err != nil {
 			r.fatalf("write broken capture: %v", err)
 		}
@@ -1668,6 +1691,7 @@ func vsScenario(rt *rapid.T, c *vlib.Case, t *testing.T, cfg vsConfig, open map[
 	c.LabelIf(r.outOfOrder, "capture-arrived-out-of-order")
 	c.LabelIf(r.mergeFaults > 0, "merges-made-to-fail")
 	c.LabelIf(r.brokenFiles > 0, "broken-upload-queued")
+	c.LabelIf(r.tr.Fat, "fat-flow")
 	nontrivial := false
 	switch cfg.focus {
 	case "C06":
